@@ -1698,6 +1698,9 @@ func genC11(g *G, sc *Scenario, tier string, seed uint64) {
 		switch pick("source", 10, []int{0, 3, 4, 5, 6, 8, 8, 0}) {
 		case 0, 1, 2:
 			m := map[string]any{"Type": "DatasetSource", "Name": g.Pick(data)}
+			if g.P(0.06) {
+				m["Name"] = "nosuchdataset" // accepted: the dataset is looked up when the job runs
+			}
 			if g.P(0.4) || (walk && cell["source"] == 7) {
 				m["LatestOnly"] = g.P(0.5) || walk
 			}
@@ -1723,6 +1726,9 @@ func genC11(g *G, sc *Scenario, tier string, seed uint64) {
 	sink := func() map[string]any {
 		switch pick("sink", 8, []int{0, 4, 5, 6, 6}) {
 		case 0, 1, 2, 3:
+			if g.P(0.06) {
+				return map[string]any{"Type": "DatasetSink", "Name": "nosuchdataset"}
+			}
 			return map[string]any{"Type": "DatasetSink", "Name": g.Pick(layers[level+1])}
 		case 4:
 			return map[string]any{"Type": "DevNullSink"}
